@@ -152,7 +152,10 @@ func genC09(cs *CaseSet, rng *Rng, tier string, dir string) {
 			hl := total - len(d[off:])
 			k := total
 			if a <= nCuts {
-				switch rng.Intn(6) {
+				switch rng.Intn(7) {
+				case 6: // exactly at a boundary of the stream's structure: after the preamble, the flattened-file header,
+					// the information fork header, the information fork (= before the DATA fork header), the DATA fork header
+					k = rng.Pick(16, 40, 56, hl-16, hl)
 				case 0:
 					k = rng.Intn(16)
 				case 1:
